@@ -9,6 +9,7 @@ package main
 // mismatch is a failed obligation `(*T).len#schema`, `(*T).copy#deep`, `(*T).isDuplicate#schema`.
 
 import (
+	"go/constant"
 	"golang.org/x/tools/go/ssa"
 	"bytes"
 	"fmt"
@@ -621,5 +622,53 @@ func (e *Engine) mnemonicTableObligations() []*Obligation {
 		ob.Output = strings.Join(bad, "; ")
 		ob.Src += " -- " + ob.Output
 	}
-	return []*Obligation{ob}
+	// every mnemonic in the tables is upper case: all readers upper-case the token before looking it up in the
+	// reverse tables, so a mixed-case mnemonic prints but cannot be read back
+	var mixed []string
+	for _, n := range names {
+		fn := e.funcs[n]
+		if fn == nil || fn.Pkg == nil || fn.Pkg.Pkg.Path() != dnsPath || !strings.HasPrefix(n, "init") {
+			continue
+		}
+		for _, b := range fn.Blocks {
+			for _, in := range b.Instrs {
+				mu, ok := in.(*ssa.MapUpdate)
+				if !ok {
+					continue
+				}
+				mm, ok := mu.Map.(*ssa.MakeMap)
+				if !ok || mm.Referrers() == nil {
+					continue
+				}
+				table := ""
+				for _, r := range *mm.Referrers() {
+					if st, ok := r.(*ssa.Store); ok {
+						if g, ok := st.Addr.(*ssa.Global); ok && (g.Name() == "TypeToString" || g.Name() == "ClassToString") {
+							table = g.Name()
+						}
+					}
+				}
+				if table == "" {
+					continue
+				}
+				if c, ok := mu.Value.(*ssa.Const); ok && c.Value != nil && c.Value.Kind() == constant.String {
+					if v := constant.StringVal(c.Value); v != strings.ToUpper(v) {
+						mixed = append(mixed, fmt.Sprintf("%s holds %q", table, v))
+					}
+				}
+			}
+		}
+	}
+	ob2 := &Obligation{Fn: "(Type).String", Name: "(Type).String#mnemonics.upper", Kind: "layout", Solver: "structural matcher (SSA data flow)"}
+	ob2.Src = "every mnemonic in TypeToString and ClassToString is upper case (readers upper-case the token before the reverse lookup)"
+	ob2.Clause = &Clause{Label: "mnemonics.upper", Src: ob2.Src}
+	ob2.Pos = ob.Pos
+	if len(mixed) == 0 {
+		ob2.Status = "proved"
+	} else {
+		ob2.Status = "failed"
+		ob2.Output = strings.Join(mixed, "; ")
+		ob2.Src += " -- " + ob2.Output
+	}
+	return []*Obligation{ob, ob2}
 }
